@@ -255,6 +255,7 @@ def run_case(case, stats):
     image = bytes(image)
     fmap = {f["name"]: f for f in fields}
     cur_ctx = {}
+    grown = []  # run state, deliberately not part of the case
 
     if case["kind"] == "bytesio":
         stream = io.BytesIO(image)
@@ -364,11 +365,11 @@ def run_case(case, stats):
                         raise Violation("width", "pointer_value", f"{sl['f']}[{sl['j']}] parsed from a {op['buf']} object = {pb!r}, expected {ab}")
                     check_deref(pb, f_, f_["depth"], ab, f"{sl['f']}[{sl['j']}] of a root parsed from a {op['buf']} object via {op.get('form')}", img=bi)
         elif k == "grow":
-            if not case.get("grown"):
+            if not grown:
                 for c_ in (cs, cs_ref):
                     c_.T.add_field("zz", c_.uint8)
                     c_.N.add_field("zz", c_.uint16)
-                case["grown"] = True
+                grown.append(True)
                 stats.count("probe.target_structures_extended_mid_history")
             hist.append("grow")
         elif cur is None:
